@@ -20,6 +20,7 @@ type bind struct {
 type loopCtx struct {
 	cont      func() string // code for `continue` / end of iteration
 	breakCode string
+	valueRet  bool // the body can return a value from the function: the loop yields Sum state ret
 }
 
 type fctx struct {
@@ -38,6 +39,7 @@ type fctx struct {
 	nonNil   map[*types.Var]bool
 	inSwitch int
 	natVars  map[*types.Var]bool
+	switchBreak []string // code for `break` inside the enclosing switch statements
 }
 
 func (c *fctx) fail(n ast.Node, format string, a ...interface{}) {
@@ -144,7 +146,12 @@ func (c *fctx) constLit(n ast.Node, tv types.TypeAndValue) string {
 		}
 		return "false"
 	case constant.String:
-		return strconv.Quote(constant.StringVal(tv.Value))
+		bs := []byte(constant.StringVal(tv.Value))
+		parts := make([]string, len(bs))
+		for i, b := range bs {
+			parts[i] = strconv.Itoa(int(b))
+		}
+		return "([" + strings.Join(parts, ", ") + "] : Bytes)"
 	case constant.Int:
 		k, ok := intKind(tv.Type)
 		if !ok {
@@ -183,7 +190,7 @@ func (c *fctx) toInt(e ast.Expr) string {
 func (c *fctx) fieldName(n ast.Node, ty types.Type, f *types.Var) string {
 	if nm := derefNamed(ty); nm != nil && nm.Obj().Pkg() != nil {
 		key := nm.Obj().Pkg().Path() + "." + nm.Obj().Name()
-		if _, ext := c.t.extern.Types[key]; ext {
+		if _, ext := c.t.extern.Types[key]; ext && nm.Obj().Pkg().Path() != c.t.curPkg {
 			if m, ok := c.t.extern.Fields[key]; ok {
 				if l, ok := m[f.Name()]; ok {
 					return l
@@ -317,6 +324,9 @@ func (c *fctx) expr(e ast.Expr) string {
 		return c.expr(x.X)
 	case *ast.IndexExpr:
 		xt := c.info.Types[x.X].Type
+		if _, isMap := xt.Underlying().(*types.Map); isMap {
+			return "(Go.mapGet " + c.expr(x.X) + " " + c.expr(x.Index) + ").1"
+		}
 		sl, ok := xt.Underlying().(*types.Slice)
 		if !ok {
 			c.fail(e, "index of %s", xt)
@@ -443,6 +453,11 @@ func (c *fctx) composite(x *ast.CompositeLit) string {
 			fs = append(fs, c.fieldName(x, ty, fv)+" := "+v)
 		}
 		return "{ " + c.zero(x, ty) + " with " + strings.Join(fs, ", ") + " : " + lt + " }"
+	case *types.Map:
+		if len(x.Elts) != 0 {
+			c.fail(x, "non-empty map literal")
+		}
+		return "(some [] : " + c.ltype(x, ty) + ")"
 	case *types.Slice:
 		var es []string
 		for _, el := range x.Elts {
@@ -464,6 +479,9 @@ func (c *fctx) binary(x *ast.BinaryExpr) string {
 		return "(decide " + c.cond(x) + ")"
 	}
 	rt := c.info.Types[x].Type
+	if b, isB := rt.Underlying().(*types.Basic); isB && b.Info()&types.IsString != 0 && x.Op == token.ADD {
+		return "(" + c.expr(x.X) + " ++ " + c.expr(x.Y) + ")"
+	}
 	k, ok := intKind(rt)
 	if !ok {
 		c.fail(x, "binary %s on %s", x.Op, rt)
@@ -566,10 +584,23 @@ func (c *fctx) cond(e ast.Expr) string {
 				}
 				if isErrorType(lt) {
 					v := c.expr(other)
+					if c.t.errEnum {
+						if x.Op == token.NEQ {
+							return "(" + v + " ≠ Go.Err.none)"
+						}
+						return "(" + v + " = Go.Err.none)"
+					}
 					if x.Op == token.NEQ {
 						return "(" + v + " = true)"
 					}
 					return "(" + v + " = false)"
+				}
+				if _, isMap := lt.Underlying().(*types.Map); isMap {
+					v := c.expr(other)
+					if x.Op == token.NEQ {
+						return "(" + v + " ≠ none)"
+					}
+					return "(" + v + " = none)"
 				}
 				if in := derefNamed(lt); in != nil {
 					if _, ok := in.Underlying().(*types.Interface); ok && len(c.t.ifaceImpl[in]) > 0 {
@@ -590,6 +621,15 @@ func (c *fctx) cond(e ast.Expr) string {
 					}
 				}
 				c.fail(e, "comparison of %s with nil", lt)
+			}
+			if isErrorType(lt) && c.t.errEnum {
+				if ev, ok := c.errConst(x.Y); ok {
+					v := c.expr(x.X)
+					if x.Op == token.EQL {
+						return "(" + v + " = " + ev + ")"
+					}
+					return "(" + v + " ≠ " + ev + ")"
+				}
 			}
 			if _, ok := lt.Underlying().(*types.Basic); !ok {
 				c.fail(e, "comparison of %s", lt)
@@ -672,6 +712,9 @@ func (c *fctx) conversion(call *ast.CallExpr, to types.Type) string {
 	if e1 == nil && e2 == nil && ft == tt {
 		return c.expr(arg)
 	}
+	if e1 == nil && e2 == nil && ((ft == "Bytes" && tt == "(List UInt8)") || (tt == "Bytes" && ft == "(List UInt8)")) {
+		return c.expr(arg)
+	}
 	c.fail(call, "conversion from %s to %s", from, to)
 	return ""
 }
@@ -686,6 +729,12 @@ func (c *fctx) callExpr(call *ast.CallExpr) string {
 			switch b.Name() {
 			case "len":
 				at := c.info.Types[call.Args[0]].Type
+				if _, ok := at.Underlying().(*types.Map); ok {
+					return "(Go.mapLen " + c.expr(call.Args[0]) + " : Int)"
+				}
+				if b, ok := at.Underlying().(*types.Basic); ok && b.Info()&types.IsString != 0 {
+					return "(" + c.expr(call.Args[0]) + ".length : Int)"
+				}
 				if _, ok := at.Underlying().(*types.Slice); !ok {
 					c.fail(call, "len of %s", at)
 				}
@@ -709,8 +758,11 @@ func (c *fctx) callExpr(call *ast.CallExpr) string {
 				return c.zero(call, c.info.Types[call.Args[0]].Type)
 			case "make":
 				ty := c.info.Types[call.Args[0]].Type
+				if _, isMap := ty.Underlying().(*types.Map); isMap {
+					return "(some [] : " + c.ltype(call, ty) + ")"
+				}
 				sl, ok := ty.Underlying().(*types.Slice)
-				if !ok || len(call.Args) != 2 {
+				if !ok || len(call.Args) < 2 {
 					c.fail(call, "make of %s", ty)
 				}
 				et := c.ltype(call, sl.Elem())
@@ -757,6 +809,9 @@ func (c *fctx) callExpr(call *ast.CallExpr) string {
 			}
 		}
 	}
+	if s, ok := c.specialCallExpr(call); ok {
+		return s
+	}
 	co := c.callTerm(call)
 	if co.hasErr {
 		c.fail(call, "call with an error result in expression position")
@@ -787,4 +842,37 @@ func (c *fctx) bothNatInts(a, b ast.Expr) bool {
 		return false
 	}
 	return c.isNatExpr(a) && c.isNatExpr(b)
+}
+
+// io.EOF / io.ErrUnexpectedEOF
+func (c *fctx) errConst(e ast.Expr) (string, bool) {
+	sel, ok := e.(*ast.SelectorExpr)
+	if !ok {
+		return "", false
+	}
+	if p, ok := c.isPkgIdent(sel.X); ok && p == "io" {
+		switch sel.Sel.Name {
+		case "EOF":
+			return "Go.Err.eof", true
+		case "ErrUnexpectedEOF":
+			return "Go.Err.unexpectedEof", true
+		}
+	}
+	return "", false
+}
+
+// does the function compare error values with each other (err == io.EOF)?
+func usesErrIdentity(info *types.Info, body ast.Node) bool {
+	found := false
+	ast.Inspect(body, func(n ast.Node) bool {
+		if be, ok := n.(*ast.BinaryExpr); ok && (be.Op == token.EQL || be.Op == token.NEQ) {
+			if isErrorType(info.Types[be.X].Type) {
+				if id, ok := be.Y.(*ast.Ident); !ok || id.Name != "nil" {
+					found = true
+				}
+			}
+		}
+		return !found
+	})
+	return found
 }
